@@ -405,6 +405,11 @@ pub fn run_mode(opts: &Options, prop: &str) -> Report {
         let mut serving = 0usize;
         let mut aborted: Option<String> = None;
         let mut rolled_back = false;
+        let in_lc_delivery = std::cell::Cell::new(false);
+        // C08: after a crash INSIDE the fork handling (records above the fork point deleted, the
+        // rollback batch not written) half of the runs continue on the OLD branch, which has
+        // grown beyond the new one meanwhile (the reorganisation is reorganised away)
+        let mut old_ext: Option<Branch> = None;
         // C09: `set_scripts` commands that keep the three scripts (a fourth registration - script 1
         // as a TYPE script, which nothing on these chains touches - is added from a far block with
         // `partial` and removed again with `delete`) at arbitrary moments of the fork histories
@@ -524,10 +529,12 @@ pub fn run_mode(opts: &Options, prop: &str) -> Report {
                                 let before = observe_all(&node, branches, serving);
                                 let tip_before = node.i().storage.get_tip_header().calc_header_hash();
                                 let volatile_empty = node.i().peers.matched_blocks().read().unwrap().is_empty();
+                                in_lc_delivery.set(rp == SupportProtocols::LightClient.protocol_id());
                                 if let Err(e) = catch(|| node.deliver(p, rp, bytes)) {
                                     aborted = Some(e);
                                     break 'steps;
                                 }
+                                in_lc_delivery.set(false);
                                 let after = observe_all(&node, branches, serving);
                                 let op = if rp == SupportProtocols::LightClient.protocol_id() {
                                     let tip_after = node.i().storage.get_tip_header().calc_header_hash();
@@ -648,6 +655,20 @@ pub fn run_mode(opts: &Options, prop: &str) -> Report {
                 Some(m) if m.contains("simulated crash") => {
                     rep.count_class("crash:injected");
                     aborted = None;
+                    let k = crash_at.unwrap_or(0) as usize;
+                    let last_done_is_record_deletion = k >= 2 && sites.borrow().get(k - 2) == Some(&"delete_matched_blocks");
+                    if prop == "C08" && in_lc_delivery.get() && last_done_is_record_deletion {
+                        rep.count_class("crash:inside-fork-handling");
+                        if k % 2 == 0 && serving > 0 {
+                            let old = &branches[serving - 1];
+                            let new_tip = branches[serving].chain.tip_number();
+                            let mut r3 = Rng::new(*seed ^ 0x01d_c4a1);
+                            let mut b = old.fork_of(old.chain.tip_number(), 77);
+                            b.extend(&mut r3, new_tip.saturating_sub(old.chain.tip_number()) + 3, 77);
+                            old_ext = Some(b);
+                            rep.count_class("crash:inside-fork-handling:old-branch-wins");
+                        }
+                    }
                     if let Err(e) = catch(|| node.restart()) {
                         rep.violate(
                             "C08|store-unusable-after-crash|fork-history",
@@ -707,7 +728,7 @@ pub fn run_mode(opts: &Options, prop: &str) -> Report {
         }
 
         // ---- convergence on the final branch (which keeps growing without activity)
-        let fin = &branches[serving];
+        let fin: &Branch = old_ext.as_ref().unwrap_or(&branches[serving]);
         let mut grown = fin.chain.fork(fin.chain.tip_number(), 99);
         let mut conv_abort = None;
         for _ in 0..8 {
